@@ -55,12 +55,18 @@ def matrix(tier):
         for p in ["SemiSpace", "Immix", "MarkSweep", "GenImmix", "MarkCompact", "PageProtect"]:
             runs.append(sc.SRun(p, name="churn", heap=8, sems="0,2", programs=0, seed_off=2,
                                 extra=["--mode", "churn", "--rounds", "1"]))
+        # refused requests (non-blocking, over-heap, overcommitted) must give their reservation back
+        for p in ["Immix", "SemiSpace", "MarkSweep"]:
+            runs.append(sc.SRun(p, name="oom", heap=16, sems="0,2", programs=0, seed_off=4,
+                                extra=["--mode", "oom", "--rounds", "2"]))
         # multi-chunk regions of the large object space carved into grants and partly released
         for p, lay in [("MarkSweep", "compressed"), ("SemiSpace", "compressed"), ("Immix", "")]:
             runs.append(sc.SRun(p, layout=lay, name="bigchunks", heap=96, sems="2", programs=0,
                                 seed_off=3, extra=["--mode", "bigchunks", "--rounds", "2"]))
         return runs
     for p in CHURN_PLANS:
+        runs.append(sc.SRun(p, name="oom", heap=16, sems="0,2", programs=0, seed_off=18,
+                            extra=["--mode", "oom", "--rounds", "4"]))
         for lay in ["compressed", ""]:
             runs.append(sc.SRun(p, layout=lay, name="bigchunks", heap=96, sems="2", programs=0,
                                 seed_off=16, extra=["--mode", "bigchunks", "--rounds", "6", "--steps", "40"]))
